@@ -729,7 +729,54 @@ def r8(F, rep):
     bias_loops(F, rep, "C12-R8")
 
 
+def work_lists(F, rep, rid="C12-R9"):
+    rep.rule(rid, "the work list of a step is rebuilt for that step: in colvarmodule::calc_colvars() a list that is filled "
+                  "(push_back) inside a loop over another list which the function itself clears and refills every step is "
+                  "cleared before every other use of it in the function (the clear dominates the use) -- a list kept from an "
+                  "earlier step names the variables that were awake then: the threads recompute those, and the variables awake "
+                  "now keep stale values")
+    f = F.one("colvarmodule::calc_colvars")
+
+    def lists(kind):
+        out = {}
+        for c in X.calls(f):
+            if c["k"] == "CXXMemberCallExpr" and X.callee_name(c) == kind and X.receiver(c) is not None:
+                out.setdefault(X.re_strip(X.key(X.receiver(c), f)), []).append(c)
+        return out
+    clears, fills = lists("clear"), lists("push_back")
+    rebuilt = {k for k in clears if k in fills}
+    n = 0
+    for B in sorted(rebuilt):
+        # filled inside a loop over another rebuilt list?
+        src = None
+        for c in fills[B]:
+            for an in f.ancestors(c):
+                if an["k"] == "ForStmt":
+                    for A in rebuilt - {B}:
+                        if any(A == X.re_strip(X.key(x, f)) for x in f.walk(an["c"][1]) if an["c"][1] is not None) or \
+                           any(A in X.re_strip(X.key(x, f)) for x in ([an["c"][0]] if an["c"][0] is not None else [])):
+                            src = A
+        if src is None:
+            continue
+        n += 1
+        own = {id(c) for k in ("clear", "push_back", "reserve") for c in lists(k).get(B, [])}
+        uses = []
+        for c in X.calls(f):
+            if id(c) in own or X.receiver(c) is None:
+                continue
+            if X.re_strip(X.key(X.receiver(c), f)) == B:
+                uses.append(c)
+        bad = [u for u in uses if not any(f.cfg.dominates(c, u) for c in clears[B])]
+        rep.add(rid, "calc_colvars|%s" % B, f.loc(bad[0] if bad else clears[B][0]),
+                "calc_colvars(): `%s` (filled from `%s`) is %s" % (B, src, "cleared before each of its %d other use(s)" % len(uses) if not bad else
+                                                                  "used (%s) on a path that does not pass through its clear()" % X.callee_name(bad[0])), not bad,
+                detail="with multiple-time-step variables the set of awake variables changes from step to step while its size may not", func=f.q)
+    if n < 1:
+        raise AnalysisBroken("%s: no derived per-step work list found in calc_colvars() (the list of parallel work items expected)" % rid)
+
+
 def run(F, rep, tier):
+    work_lists(F, rep)
     r8(F, rep)
     r1(F, rep)
     r2(F, rep)
